@@ -14,12 +14,16 @@ def addBody : List String := ["send l.c", "l.w.Add(1)"]
 
 def doneBody : List String := ["l.w.Done()", "recv l.c"]
 
-def recoverBody : List String := ["defer{if(p:=recover();p!=nil){if(panicFn!=nil){panicFn(p)}else{var buf; buf.Grow(…); buf.WriteString(…); stack(…); fmt.Println(…)}}; if(len(cleanups)==0){return}; var index; defer{if(p:=recover();p!=nil){s:=fmt.Sprintf(…); if(panicFn!=nil){panicFn(s)}else{fmt.Println(…)}}}; range(i,cleanup:cleanups){index=i; cleanup()}}", "fn()"]
+def recoverBody : List String := ["defer{if(p:=recover();p!=nil){if(panicFn!=nil){panicFn(p)}else{var buf; buf.Grow(…); buf.WriteString(…); stack(&buf,4,6); fmt.Println(…)}}; if(len(cleanups)==0){return}; var index; defer{if(p:=recover();p!=nil){s:=fmt.Sprintf(…); if(panicFn!=nil){panicFn(s)}else{fmt.Println(…)}}}; range(i,cleanup:cleanups){index=i; cleanup()}}", "fn()"]
 
 def setHandlerBody : List String := ["l.panicHandler=fn", "return l"]
 
 def waitUntimedTail : String := "l.w.Wait()"
 
 def waitTimedBody : List String := ["if(len(waitTime)>0){quit:=make(chanstruct{},1); go func(chchan<-struct{}){l.w.Wait()ch<-struct{}{}}(…); select{case recv quit:{} case recv time.After(waitTime[0]):{}}; return}"]
+
+def stackHead : List String := ["callers:=make([]uintptr,deep)", "n:=runtime.Callers(skip,callers)", "frames:=runtime.CallersFrames(callers[:n])"]
+
+def logPanicBody : List String := ["return func{var buf; buf.Grow(…); buf.WriteString(…); stack(&buf,5,deep); l.Error(…)}"]
 
 end Golib.Gen.C19
